@@ -168,6 +168,11 @@ def build_input(case):
     if case.get("derive"):
         for c in ["r", "tag", "level"] + [c["name"] for c in specs]:
             t.ndata[c] = cols[c]                                                                       # same (derived, queried) object
+    elif case.get("names"):
+        from swcgeom.core.swc_utils import SWCNames
+
+        nm = case["names"]
+        t = Tree(n0, **{nm.get(k, k): v for k, v in cols.items()}, names=SWCNames(**nm))
     else:
         t = Tree(n0, **cols)
     before = {k: t.get_ndata(k).copy() for k in t.keys()}
@@ -390,6 +395,29 @@ class Ops(Suite):
                         kinds = FLOAT_KINDS if op["op"] == "cuttip" else INT_KINDS
                         case["pkind"] = kinds[(k + j) % len(kinds)]
                     out.append(case)
+        # trees built with their OWN column-name table (the public `names=` option of Tree): every operation on them. (Own block, after
+        # everything else.)  `cutattr` / `cuttip` / `cuttype` read attributes through the node handles, which honour the table.
+        k = 0
+        for n in ([2, 3, 4, 6, 9] if not big else [2, 3, 4, 5, 6, 8, 11, 16, 24, 40]):
+            shape = gen.pick_shape(rng, k + 5); k += 1
+            t = lattice_tree(rng, n, shape)
+            nn = t["n"]
+            ops = [{"op": "subtree", "n": rng.randrange(nn), "via": ["func", "node"][k % 2]}]
+            if nn > 1:
+                ops += [{"op": "subtree", "n": rng.randrange(1, nn), "via": ["node", "func"][k % 2]},
+                        {"op": "tosub", "rm": rng.sample(range(1, nn), rng.randint(1, min(2, nn - 1))), "rmkind": rng.choice(RMKINDS)},
+                        {"op": "cutenter", "rm": rng.sample(range(1, nn), rng.randint(0, min(3, nn - 1)))},
+                        {"op": "cutleave", "h": rng.randint(0, 2)},
+                        {"op": "cuttype", "t": rng.choice(sorted(set(t["types"])))},
+                        {"op": "cutorder", "m": rng.randint(1, 3)}]
+            for j, op in enumerate(ops):
+                case = {"class": f"{shape}/{op['op']}/own-names", "tree": t, "op": op, "names": gen.OWN_NAMES[(k + j) % len(gen.OWN_NAMES)],
+                        "mapkind": ["list", "dict", None][(k + j) % 3]}
+                if op["op"] in ("cutenter", "cutdepth", "cutleave"):
+                    case["flag"] = FLAGS[(k + j) % len(FLAGS)]
+                else:
+                    case["pkind"] = INT_KINDS[(k + j) % len(INT_KINDS)]
+                out.append(case)
         return out
 
     @staticmethod
